@@ -245,6 +245,28 @@ var opTable = []opDef{
 		err := h.t.RemoveTips(false, drop...)
 		return fmt.Sprintf("RemoveTips(revert=false,%s)", short(drop)), err, true
 	}},
+	{"RefreshIndexesPiecewise", 2, func(h *hist) (string, error, bool) {
+		// the public refresh steps one by one instead of ReinitIndexes: bitsets are refilled in place
+		if err := h.t.UpdateTipIndex(); err != nil {
+			return "UpdateTipIndex()", err, true
+		}
+		d := "UpdateTipIndex()"
+		if h.r.Intn(2) == 0 || h.forceKeep {
+			if err := h.t.UpdateBitSet(); err != nil {
+				return d + "+UpdateBitSet()", err, true
+			}
+			d += "+UpdateBitSet()"
+		}
+		if h.r.Intn(2) == 0 {
+			h.t.ComputeEdgeHashes(nil, nil, nil)
+			d += "+ComputeEdgeHashes()"
+		}
+		if h.r.Intn(2) == 0 {
+			h.t.ComputeDepths()
+			d += "+ComputeDepths()"
+		}
+		return d, nil, true
+	}},
 	{"CollapseShortBranches", 4, func(h *hist) (string, error, bool) {
 		l := pickLen(h.r, h.t)
 		rr, rt := h.r.Intn(3) == 0, h.r.Intn(4) == 0
@@ -594,7 +616,7 @@ func (h *hist) step() (name, desc string, ok bool) {
 		switch op.name {
 		case "NNI":
 			h.pendingOK = h.pending != nil
-		case "Reroot", "RotateInternalNodes", "RotateNeighbors", "SortNeighborsByTips", "Decorate", "Scale", "NNI.UndoLater":
+		case "Reroot", "RotateInternalNodes", "RotateNeighbors", "SortNeighborsByTips", "Decorate", "Scale", "NNI.UndoLater", "RefreshIndexesPiecewise":
 			// the four subtrees around the rearranged branch are still there
 		default:
 			h.pendingOK = false
